@@ -266,6 +266,9 @@ def _subseq_mod_fillers(a: list, b: list, fillers: set) -> bool:
 def check(case: dict, ctx: Ctx) -> None:
     from prosemirror.transform import Transform
 
+    if not schemas.in_domain(case["schema"]):
+        ctx.label("skipped:schema-not-well-founded")
+        return
     lib, rs = schemas.get(case["schema"])
     doc_p = case["doc"]
     op = case["op"]
